@@ -114,6 +114,16 @@ func (nfs *Nfs) NFSPROC3_SETATTR(args nfstypes.SETATTR3args) nfstypes.SETATTR3re
 		errRet(op, &reply.Status, nfstypes.NFS3ERR_FBIG)
 		return reply
 	}
+	if args.New_attributes.Size.Set_it && ip.Kind != nfstypes.NF3REG {
+		// only a regular file has a size a client may set; a directory's
+		// size is its entries, starting with "." and ".."
+		if ip.Kind == nfstypes.NF3DIR {
+			errRet(op, &reply.Status, nfstypes.NFS3ERR_ISDIR)
+		} else {
+			errRet(op, &reply.Status, nfstypes.NFS3ERR_INVAL)
+		}
+		return reply
+	}
 	if args.New_attributes.Size.Set_it {
 		shrink := ip.Resize(op.Atxn, uint64(args.New_attributes.Size.Size))
 		if shrink {
